@@ -12,7 +12,7 @@ Parser / State / Action / Utf8Parser / AsciiParser are EXPANDED by this plug-in 
 and enum items (every field its type's Default; the `#[default]` variant) into g_*_default.
 Proofs/ParserGen.v and Proofs/ParserGen2.v prove the translations equal to the hand model
 (Model/Parser.v) the theorems of C02 / C20 / C04 are about.  See HACKING.d/parser.md.
-definitions::unpack (transmute) is not translatable: it stays hand-modelled, pinned by token hash."""
+definitions::unpack: `mem::transmute::<u8, State | Action>` is read at value level as the discriminant decoder."""
 import copy
 import os
 import re
@@ -278,6 +278,31 @@ def m_opt_ok_or(em, e, rt, rty, env, k):
     return em.expr(e.args[0], env, lambda t, _ty, env1: k("(opt_ok_or %s %s)" % (rt, t), ("res", rty[1]), env1))
 
 
+def f_transmute(em, e, env, k):
+    """mem::transmute::<u8, State>(x) / ::<u8, Action>(x), value level: the variant of the fieldless #[repr(u8)] enum
+    whose discriminant is x (state_of_disc / action_of_disc of Generated/Table.v, read from the `= n` of the enum);
+    no such variant = undefined behaviour: None"""
+    ta = getattr(e.f, "targs", None)
+    tab = {"<u8,State>": ("state_of_disc", STATE), "<u8,Action>": ("action_of_disc", ACTION)}
+    if ta not in tab or len(e.args) != 1:
+        raise EmitError("transmute%s: only ::<u8, State> and ::<u8, Action> are modelled" % (ta or ""))
+    fn, ty = tab[ta]
+
+    def k1(t, aty, env1):
+        if aty != U8:
+            raise EmitError("transmute%s of a value of type %r" % (ta, aty))
+        return em.bind("%s %s" % (fn, t), ty, env1, k, hint="tm")
+    return em.expr(e.args[0], env, k1)
+
+
+def check_repr_u8(items, name):
+    ens = find_items(items, "enum", name)
+    if len(ens) != 1 or not any(a.replace(" ", "") == "#[repr(u8)]" for a in ens[0].attrs or []):
+        raise TranslateError("enum %s is not #[repr(u8)] (transmute::<u8, %s> is read as the discriminant decoder)" % (name, name))
+    if any(v[1] is not None for v in ens[0].variants):
+        raise TranslateError("enum %s has a variant with data" % name)
+
+
 STRUCT_PARAMS = {"coq": "params", "var": "q", "ctor": ("mkParams", ["subparams", "params", "current_subparams", "len"]), "fields": {
     "subparams": ("subparams", "set_subparams", ("list", U8)),
     "params": ("pvals", "set_pvals", ("list", U16)),
@@ -530,32 +555,34 @@ def register(generators, gm):
                                                     ("list", "enumerate"): m_list_enumerate, ("int", "fmt"): m_u16_fmt}),
             })
             out.append(translate(par, vd, [("fmt", "Params", "g_params_debug_fmt", {"trait": "Debug"})], "", "", shapes))
-            # ---- state/mod.rs, state/definitions.rs ----------------------------------------------------
+            # ---- state/definitions.rs, state/mod.rs ----------------------------------------------------
             v2 = dict(VOCAB)
             v2["structs"] = {}
             v2["opaque"] = {}
-            out.append(translate(smod, v2, [
-                ("state_change_", None, "g_state_change_", {}),
-                ("state_change", None, "g_state_change", {}),
-            ], "", "", shapes))
             sv, av = VOCAB["enums"]["State"]["variants"], VOCAB["enums"]["Action"]["variants"]
             out.append(derive_default_enum(defs_items, "State", sv, "state", "g_state_default"))
             out.append(derive_default_enum(defs_items, "Action", av, "action", "g_action_default"))
             out.append(const_array(defs_items, "STATES", "State", sv, "state", "g_STATES"))
             out.append(const_array(defs_items, "ACTIONS", "Action", av, "action", "g_ACTIONS"))
+            check_repr_u8(defs_items, "State")
+            check_repr_u8(defs_items, "Action")
             vt = dict(v2)
             vt.update({
                 "result": {"err": "N"},
                 "consts": dict(VOCAB["consts"], STATES=("g_STATES", ("list", STATE)), ACTIONS=("g_ACTIONS", ("list", ACTION))),
                 "methods": {("list", "get"): m_list_get, ("opt", "ok_or"): m_opt_ok_or},
+                "fns": {"mem::transmute": f_transmute},
             })
             out.append(translate(defs, vt, [
                 ("try_from", "State", "g_state_try_from", {"trait": "TryFrom"}),
                 ("try_from", "Action", "g_action_try_from", {"trait": "TryFrom"}),
+                ("unpack", None, "g_unpack", {}),
             ], "", "", shapes))
-            h = drv.token_hash(drv.fn_source(defs, "unpack"))
-            if h != PIN_UNPACK:
-                raise TranslateError("definitions::unpack changed (token hash %s, pinned %s): it is modelled by hand (transmute)" % (h, PIN_UNPACK))
+            v2["fns"] = {}     # state_change calls the TRANSLATED unpack
+            out.append(translate(smod, v2, [
+                ("state_change_", None, "g_state_change_", {}),
+                ("state_change", None, "g_state_change", {}),
+            ], "", "", shapes))
             # ---- lib.rs: the character accumulators ----------------------------------------------------
             char_accumulator_alias(lib)
             va = dict(VOCAB)
@@ -653,4 +680,6 @@ def register(generators, gm):
     generators["ParserFn"] = gen
 
 
+# token hash of definitions::unpack: no longer checked here (unpack is translated, g_unpack); still used by
+# tools/gen_fn_strip.py, whose copy of state_change calls the hand model
 PIN_UNPACK = "09d93a3576ae6881"
